@@ -230,20 +230,22 @@ class FileResolver:
                 rel = resolved.relative_to(base).as_posix()
             except ValueError:
                 continue
-            if is_dir:
-                # A trailing `/**` matches everything inside a directory but not the directory
-                # itself, so for such patterns the directory is matched without its slash.
-                for pattern in reversed(spec.patterns):
-                    if pattern.include is None:
-                        continue
-                    inside_only = str(pattern.pattern).rstrip().endswith("/**")
-                    if pattern.match_file(rel if inside_only else rel + "/") is not None:
-                        ignored = pattern.include
-                        break
-            else:
-                result = spec.check_file(rel)
-                if result.include is not None:
-                    ignored = result.include
+            # Git tests a pattern against the entry itself. A pattern that matches one of the
+            # entry's directories (`build/`, `!build/`) was applied to that directory when it
+            # was visited, so it says nothing more about what is inside it. A trailing `/**`
+            # matches everything inside a directory but not the directory itself.
+            parent = rel.rpartition("/")[0]
+            for pattern in reversed(spec.patterns):
+                if pattern.include is None:
+                    continue
+                inside_only = str(pattern.pattern).rstrip().endswith("/**")
+                target = rel + "/" if is_dir and not inside_only else rel
+                if pattern.match_file(target) is None:
+                    continue
+                if parent and not inside_only and pattern.match_file(parent + "/") is not None:
+                    continue
+                ignored = pattern.include
+                break
         return ignored
 
     def _get_gitignore_chain(
